@@ -160,7 +160,12 @@ func (aux *Aux) LoadForm() slip.Object {
 		sll := make(slip.List, len(method.Doc.Args))
 		for i, da := range method.Doc.Args {
 			if i < aux.reqCnt {
-				sll[i] = slip.List{slip.Symbol(da.Name), slip.Symbol(da.Type)}
+				if len(da.Type) == 0 {
+					// Not specialized.
+					sll[i] = slip.Symbol(da.Name)
+				} else {
+					sll[i] = slip.List{slip.Symbol(da.Name), slip.Symbol(da.Type)}
+				}
 			} else {
 				if da.Name[0] == '&' || da.Default == nil {
 					sll[i] = slip.Symbol(da.Name)
